@@ -13,6 +13,8 @@
 //   (6 obj sr ch)       AudioSpecificConfig{obj,sr,ch}.MarshalBinary     -> (0 bytes) | (1 code)
 //   (7 v)               SampleRateIndex(v).ToHz, ObjectType(v).ToProfile, Profile(v).ToObjectType
 //                       -> (0 hz profile object) | (2)
+//   (8 cfg raw)         NewADTS(); SetASC(cfg); Encode(raw); Decode(output), all on the same object
+//                       -> (<set> (0 adts <dec>)) | (<set> (1 code)),  <set> = (0 obj sr ch) | (1 code obj sr ch)
 //   (9 id layer pa profile sfi priv ch orig home cbit cstart fullness nblocks crc raw tail)
 //                       frame written by the reference ISO 13818-7 writer ++ tail, Decode
 //                       -> (0 frame <dec>)
@@ -311,7 +313,7 @@ func vC11Run(c vSx) (r vC11Res) {
 			if vC11ProfileOf(d.o) != vC11ProfileOf(o) || d.sr != sr || d.ch != ch {
 				r.bad("adts-rt-config", fmt.Sprintf("config (%d,%d,%d) reported as (%d,%d,%d)", o, sr, ch, d.o, d.sr, d.ch))
 			}
-			// the encoder's output is itself an ISO frame: MPEG-2 id, layer 0, no CRC, the
+			// the encoder's output is itself an ISO frame: layer 0, no CRC, the
 			// configuration's profile/index/channels, single raw data block (any buffer fullness)
 			h, raw2, rest, ok := vC11IsoParse(adts)
 			if !ok || len(rest) != 0 || !bytes.Equal(raw2, raw) || h.pa != 1 || int(h.profile) != vC11ProfileOf(o) || int(h.sfi) != sr || int(h.ch) != ch {
@@ -458,6 +460,40 @@ func vC11Run(c vSx) (r vC11Res) {
 		}
 		if int(ot) != wantOt {
 			r.bad("profile-map", fmt.Sprintf("profile %d -> object %d, expected %d", v, ot, wantOt))
+		}
+	case 8:
+		cfg, raw := c.l[1].b, c.l[2].b
+		ai, _ := NewADTS()
+		a := ai.(*ADTSImpl)
+		serr := a.SetASC(cfg)
+		o, sr, ch := int(a.asc.Object), int(a.asc.SampleRate), int(a.asc.Channels)
+		set := vL(vZ(0), vI(o), vI(sr), vI(ch))
+		if serr != nil {
+			set = vL(vZ(1), vI(vC11Code(serr, true)), vI(o), vI(sr), vI(ch))
+		}
+		adts, err := a.Encode(raw)
+		if err != nil {
+			r.obs = vL(set, vErr(vC11Code(err, false)))
+			if serr == nil {
+				r.bad("setasc-encode", fmt.Sprintf("config %x accepted by SetASC but Encode fails: %v", cfg, err))
+			}
+			return
+		}
+		if serr != nil {
+			r.bad("setasc-encode", fmt.Sprintf("config %x rejected by SetASC but Encode succeeds", cfg))
+		}
+		d := vC11Decode(a, adts)
+		r.obs = vL(set, vOk(vB(adts), d.obs()))
+		if len(cfg) >= 2 {
+			v := uint(cfg[0])<<8 | uint(cfg[1])
+			wo, wsr, wch := int(v>>11), int(v>>7)&15, int(v>>3)&15
+			if vC11Accepted(wo, wsr, wch) && len(raw) >= 1 && len(raw) <= 8184 {
+				r.nontrivial = vC11LenSpread(len(raw) + 7)
+				if d.panicked || d.err != nil || !bytes.Equal(d.raw, raw) || len(d.left) != 0 ||
+					vC11ProfileOf(d.o) != vC11ProfileOf(wo) || d.sr != wsr || d.ch != wch {
+					r.bad("setasc-rt", fmt.Sprintf("config %04x, raw %d bytes: decoded %d bytes, %d left, config (%d,%d,%d), err %v", v, len(raw), len(d.raw), len(d.left), d.o, d.sr, d.ch, d.err))
+				}
+			}
 		}
 	case 9:
 		f := c.l
@@ -643,9 +679,27 @@ func vC11Gen(rnd *vRng) vSx {
 			data[3] |= 3
 		}
 		return vL(vZ(2), vB(data))
-	case p < 92:
+	case p < 88:
 		n := rnd.pickInt(0, 1, 2, 2, 2, 3, 5)
-		return vL(vZ(4), vB(rnd.bytes(n)))
+		data := rnd.bytes(n)
+		if n >= 2 && rnd.chance(1, 2) {
+			v := uint(vC11Objs[rnd.intn(5)])<<11 | uint(rnd.rng(1, 12))<<7 | uint(rnd.rng(1, 7))<<3 | uint(rnd.intn(8))
+			data[0], data[1] = byte(v>>8), byte(v)
+		}
+		return vL(vZ(4), vB(data))
+	case p < 93:
+		o, sr, ch := vC11Objs[rnd.intn(5)], rnd.rng(1, 12), rnd.rng(1, 7)
+		v := uint(o)<<11 | uint(sr)<<7 | uint(ch)<<3 | uint(rnd.intn(8))
+		cfg := []byte{byte(v >> 8), byte(v)}
+		switch rnd.intn(8) {
+		case 0:
+			cfg = rnd.bytes(2)
+		case 1:
+			cfg = cfg[:1]
+		case 2:
+			cfg = append(cfg, rnd.bytes(rnd.rng(1, 4))...)
+		}
+		return vL(vZ(8), vB(cfg), vB(rnd.bytes(vC11RawLen(rnd, 8184))))
 	default:
 		o, sr, ch := vC11Objs[rnd.intn(5)], rnd.rng(1, 12), rnd.rng(1, 7)
 		if rnd.chance(1, 3) {
@@ -680,13 +734,6 @@ func TestVerifC11(t *testing.T) {
 	}
 	for _, c := range k.corpus() {
 		runOne(c)
-	}
-	// exhaustive: all 65536 two-byte configs, all 256 enum values
-	for hi := 0; hi < 256; hi++ {
-		runOne(vL(vZ(5), vI(hi)))
-	}
-	for v := 0; v < 256; v++ {
-		runOne(vL(vZ(7), vI(v)))
 	}
 	// exhaustive: all header field combinations profile x index x channels x id x protection
 	// (4 x 16 x 8 x 2 x 2 = 2048), each with boundary frame lengths and random payload
@@ -734,6 +781,13 @@ func TestVerifC11(t *testing.T) {
 				runOne(vL(vZ(1), vI(o), vI(sr), vI(ch), vB(k.rnd.bytes(n))))
 			}
 		}
+	}
+	// exhaustive: all 65536 two-byte configs, all 256 enum values
+	for hi := 0; hi < 256; hi++ {
+		runOne(vL(vZ(5), vI(hi)))
+	}
+	for v := 0; v < 256; v++ {
+		runOne(vL(vZ(7), vI(v)))
 	}
 	for i := 0; i < k.N(2500, 40000); i++ {
 		runOne(vC11Gen(k.rnd))
